@@ -4,8 +4,8 @@ package c07
 import (
 	"encoding/json"
 	"fmt"
+	"regexp"
 	"strconv"
-	"strings"
 
 	"gopkg.in/typ.v4/slices"
 	"verif/harness/core"
@@ -17,7 +17,7 @@ type Op struct {
 }
 
 type Case struct {
-	Order string `json:"order"` // Ordered (NewSortedOrdered) | Nat | Rev | Key (NewSorted with a less function)
+	Order string `json:"order"` // Ordered (NewSortedOrdered) | Nat | Rev | Key (NewSorted with a less function) | Zero (var s Sorted[int], Init unused)
 	Init  []int  `json:"init"`
 	Ops   []Op   `json:"ops"`
 }
@@ -103,6 +103,14 @@ func run(c *core.Ctx) {
 					}
 				}
 			}
+		}
+	}
+	// the zero value: every single operation and every pair
+	zops := []Op{{"Add", 0}, {"Remove", 0}, {"Index", 0}, {"Contains", 0}, {"Get", -1}, {"Get", 0}, {"Get", 1}, {"RemoveAt", 0}, {"Len", 0}, {"String", 0}}
+	for _, o1 := range zops {
+		exec(c, Case{"Zero", nil, []Op{o1}})
+		for _, o2 := range zops {
+			exec(c, Case{"Zero", nil, []Op{o1, o2}})
 		}
 	}
 	c.Exhaustive = true
@@ -231,15 +239,32 @@ func fail(c *core.Ctx, what, detail string) {
 	c.Fail(what, detail)
 }
 
+var intRe = regexp.MustCompile(`-?[0-9]+`)
+
+// parse extracts the integers shown by String(), whatever the punctuation around them. Only the
+// String operation uses it; the state of the object is observed through Len and Get.
 func parse(s string) []int {
-	s = strings.TrimSuffix(strings.TrimPrefix(s, "["), "]")
 	out := []int{}
-	for _, f := range strings.Fields(s) {
+	for _, f := range intRe.FindAllString(s, -1) {
 		n, err := strconv.Atoi(f)
 		if err != nil {
-			panic("c07: cannot parse String() output " + s)
+			continue
 		}
 		out = append(out, n)
+	}
+	return out
+}
+
+// contents observes the object through its specified interface: Len() and Get(0..Len-1).
+func contents(c *core.Ctx, s *slices.Sorted[int], when string) []int {
+	out := []int{}
+	n := s.Len()
+	if kind := core.Try(func() {
+		for i := 0; i < n; i++ {
+			out = append(out, s.Get(i))
+		}
+	}); kind != "" {
+		fail(c, "Get panics for a position inside [0,Len)", fmt.Sprintf("%s: Len %d, Get(%d): %s", when, n, len(out), kind))
 	}
 	return out
 }
@@ -263,6 +288,10 @@ const sentinel = 777777
 func exec(c *core.Ctx, cs Case) {
 	c.Begin(cs)
 	c.Count("order_" + cs.Order)
+	if cs.Order == "Zero" {
+		execZero(c, cs)
+		return
+	}
 	less := lessOf(cs.Order)
 	tot := total(cs.Order)
 	bag := map[int]int{}
@@ -316,12 +345,12 @@ func exec(c *core.Ctx, cs Case) {
 	if !core.Eq(input, cs.Init) {
 		fail(c, "NewSorted modified the caller's slice", fmt.Sprint(input))
 	}
-	start := parse(s.String())
+	start := contents(c, &s, "after construction")
 	for i := range input {
 		input[i] = sentinel
 	}
-	if !core.Eq(parse(s.String()), start) {
-		fail(c, "Sorted aliases the caller's slice", fmt.Sprintf("after overwriting the input the contents are %v, were %v", parse(s.String()), start))
+	if now := contents(c, &s, "after construction"); !core.Eq(now, start) {
+		fail(c, "Sorted aliases the caller's slice", fmt.Sprintf("after overwriting the input the contents are %v, were %v", now, start))
 	}
 	check("after construction", start)
 
@@ -333,6 +362,7 @@ func exec(c *core.Ctx, cs Case) {
 		old := cont
 		var ri int
 		var rb bool
+		var rs string
 		kind := core.Try(func() {
 			switch o.K {
 			case "Add":
@@ -349,18 +379,19 @@ func exec(c *core.Ctx, cs Case) {
 				ri = s.Get(o.A)
 			case "Len":
 				ri = s.Len()
+			case "String":
+				rs = s.String()
 			}
 		})
-		cont = parse(s.String())
+		cont = contents(c, &s, when)
 		inRange := o.A >= 0 && o.A < len(old)
 		if kind != "" {
 			c.Count("panic_" + o.K)
 			rets = append(rets, "RPanic "+kind)
 			if !((o.K == "Get" || o.K == "RemoveAt") && !inRange) {
 				fail(c, o.K+" panics", fmt.Sprintf("%s on contents %v: %s", when, old, kind))
-			} else if kind != "IndexOutOfRange" {
-				fail(c, o.K+" panics with an unexpected value", kind)
 			}
+			// which value the call panics with (its kind, its message) is not part of the property
 			if !core.Eq(cont, old) {
 				fail(c, "panicking "+o.K+" changed the contents", fmt.Sprintf("%v -> %v", old, cont))
 			}
@@ -458,7 +489,12 @@ func exec(c *core.Ctx, cs Case) {
 				fail(c, "Len is wrong", fmt.Sprintf("%s returned %d: contents %v", when, ri, old))
 			}
 		case "String":
-			rets = append(rets, "RList "+core.ZList(cont))
+			// only the numbers String() shows are looked at, not its punctuation
+			shown := parse(rs)
+			rets = append(rets, "RList "+core.ZList(shown))
+			if !core.Eq(shown, cont) {
+				fail(c, "String() does not show the contents", fmt.Sprintf("%s: %q, contents %v", when, rs, cont))
+			}
 		}
 		if o.K != "Add" && o.K != "Remove" && o.K != "RemoveAt" && !core.Eq(cont, old) {
 			fail(c, o.K+" changed the contents", fmt.Sprintf("%s: %v -> %v", when, old, cont))
@@ -472,15 +508,7 @@ func exec(c *core.Ctx, cs Case) {
 			}
 		}
 	}
-	// String() and Get(0..Len-1) must show the same contents
-	final := []int{}
-	if kind := core.Try(func() {
-		for i := 0; i < s.Len(); i++ {
-			final = append(final, s.Get(i))
-		}
-	}); kind != "" || !core.Eq(final, cont) {
-		fail(c, "Get(0..Len-1) differs from String()", fmt.Sprintf("%v vs %v (%s)", final, cont, kind))
-	}
+	final := cont
 	if dups && interesting {
 		c.Nontrivial() // duplicates present and a value taken out (or a Remove of an absent value)
 	}
@@ -499,4 +527,63 @@ func exec(c *core.Ctx, cs Case) {
 	}
 	c.Emit(fmt.Sprintf("Case O%s %s %s %s %s %s", cs.Order, core.ZList(cs.Init), core.List(ops),
 		core.ZList(start), core.List(rets), core.ZList(final)))
+}
+
+// execZero drives the zero value (var s Sorted[int]; no less function). The property starts from
+// NewSorted/NewSortedOrdered, so there is no property oracle here: the case only ties the model's
+// "less == nil" branch (search panics) to the code, comparing panicked / returned and the values.
+func execZero(c *core.Ctx, cs Case) {
+	var s slices.Sorted[int]
+	var rets []string
+	for _, o := range cs.Ops {
+		var ri int
+		var rb bool
+		var rs string
+		kind := core.Try(func() {
+			switch o.K {
+			case "Add":
+				ri = s.Add(o.A)
+			case "Remove":
+				ri = s.Remove(o.A)
+			case "RemoveAt":
+				s.RemoveAt(o.A)
+			case "Index":
+				ri = s.Index(o.A)
+			case "Contains":
+				rb = s.Contains(o.A)
+			case "Get":
+				ri = s.Get(o.A)
+			case "Len":
+				ri = s.Len()
+			case "String":
+				rs = s.String()
+			}
+		})
+		switch {
+		case kind != "":
+			c.Count("zero_panic_" + o.K)
+			rets = append(rets, "RPanic "+kind)
+		case o.K == "Contains":
+			rets = append(rets, "RBool "+core.Bool(rb))
+		case o.K == "RemoveAt":
+			rets = append(rets, "RUnit")
+		case o.K == "Get":
+			rets = append(rets, "RVal "+core.Z(ri))
+		case o.K == "String":
+			rets = append(rets, "RList "+core.ZList(parse(rs)))
+		default:
+			rets = append(rets, "RInt "+core.Z(ri))
+		}
+	}
+	final := contents(c, &s, "zero value, at the end")
+	ops := make([]string, len(cs.Ops))
+	for i, o := range cs.Ops {
+		switch o.K {
+		case "Len", "String":
+			ops[i] = "O" + o.K
+		default:
+			ops[i] = "O" + o.K + " " + core.Z(o.A)
+		}
+	}
+	c.Emit(fmt.Sprintf("Case OZero [] %s [] %s %s", core.List(ops), core.List(rets), core.ZList(final)))
 }
